@@ -1604,6 +1604,115 @@ fn scripted(rep: &mut Report, cw: &mut CaseWriter) {
         rep.count("scripted_scenarios");
     }
 }
+
+fn ac_step(rep: &mut Report, cw: &mut CaseWriter, mat: &mut Mat, doc: &mut AutoCommit, what: &str, log: &[String]) {
+    let enc = mat.enc;
+    let r = guard(|| {
+        let patches = doc.diff_incremental();
+        let want = read_view(doc.document(), &ROOT, ObjType::Map, None, enc, 0);
+        let want_h = doc.document().hydrate(None);
+        (patches, want, want_h)
+    });
+    match r {
+        Ok((patches, want, want_h)) => {
+            mat.step(rep, cw, true, what, &patches, &want, &want_h, log);
+        }
+        Err(p) => rep.fail(&["C09", "C37"], &format!("panic|scripted|{}", p.signature()), &format!("scripted scenario panicked: {}", p.message), json!({"log": log})),
+    }
+}
+
+/// scripted scenarios S5..S9 (AutoCommit + diff_incremental)
+fn scripted_autocommit(rep: &mut Report, cw: &mut CaseWriter) {
+    let enc = TextEncoding::UnicodeCodePoint;
+    let mk = || {
+        let doc = AutoCommit::new_with_encoding(enc).with_actor(actor_of(&[0xE0]));
+        let peer = AutoCommit::new_with_encoding(enc).with_actor(actor_of(&[0xD0]));
+        (doc, peer, Mat::new(enc))
+    };
+    // S5: local increment of a register holding two conflicting counters
+    {
+        let (mut doc, mut peer, mut mat) = mk();
+        let log = vec!["S5: doc e0: put c=counter(3); peer d0: put c=counter(1); doc merges peer; doc: increment c by 1".to_string()];
+        let _ = guard(|| {
+            doc.put(ROOT, "c", ScalarValue::counter(3)).unwrap();
+            doc.commit();
+            peer.put(ROOT, "c", ScalarValue::counter(1)).unwrap();
+            peer.commit();
+            doc.merge(&mut peer).unwrap();
+        });
+        ac_step(rep, cw, &mut mat, &mut doc, "merge", &log);
+        let _ = guard(|| doc.increment(ROOT, "c", 1).unwrap());
+        ac_step(rep, cw, &mut mat, &mut doc, "local", &log);
+        mat.flush(cw, true, &json!({"kind": "chain", "props": ["C09"], "log": log}));
+        rep.count("scripted_scenarios");
+    }
+    // S6: local put of the value the winner already has, on a conflicted register
+    {
+        let (mut doc, mut peer, mut mat) = mk();
+        let log = vec!["S6: doc e0: put c=5; peer d0: put c=7; doc merges peer (winner 5, conflicted); doc: put c=5".to_string()];
+        let _ = guard(|| {
+            doc.put(ROOT, "c", 5).unwrap();
+            doc.commit();
+            peer.put(ROOT, "c", 7).unwrap();
+            peer.commit();
+            doc.merge(&mut peer).unwrap();
+        });
+        ac_step(rep, cw, &mut mat, &mut doc, "merge", &log);
+        let _ = guard(|| doc.put(ROOT, "c", 5).unwrap());
+        ac_step(rep, cw, &mut mat, &mut doc, "local", &log);
+        mat.flush(cw, true, &json!({"kind": "chain", "props": ["C09"], "log": log}));
+        rep.count("scripted_scenarios");
+    }
+    // S8: one received change increments list element 0 and inserts an element after it
+    {
+        let (mut doc, mut peer, mut mat) = mk();
+        let log = vec!["S8: doc: l=[counter 2]; peer merges doc, increments l[0] by 2 and inserts Null at 1 in one change; doc merges peer".to_string()];
+        let mut l = ROOT;
+        let _ = guard(|| {
+            l = doc.put_object(ROOT, "l", ObjType::List).unwrap();
+            doc.insert(&l, 0, ScalarValue::counter(2)).unwrap();
+            doc.commit();
+        });
+        ac_step(rep, cw, &mut mat, &mut doc, "commit", &log);
+        let _ = guard(|| {
+            peer.merge(&mut doc).unwrap();
+            peer.increment(&l, 0, 2).unwrap();
+            peer.insert(&l, 1, ScalarValue::Null).unwrap();
+            peer.commit();
+            doc.merge(&mut peer).unwrap();
+        });
+        ac_step(rep, cw, &mut mat, &mut doc, "merge", &log);
+        mat.flush(cw, true, &json!({"kind": "chain", "props": ["C09"], "log": log}));
+        rep.count("scripted_scenarios");
+    }
+    // S9: a counter with increments is exposed by the deletion of the value that won against it
+    {
+        let mut doc = AutoCommit::new_with_encoding(enc).with_actor(actor_of(&[0xD0]));
+        let mut peer = AutoCommit::new_with_encoding(enc).with_actor(actor_of(&[0xE0]));
+        let mut mat = Mat::new(enc);
+        let log = vec!["S9: doc d0: put k=counter(1); increment k by 2; peer e0 (concurrent): put x, put y, put k=Null (greater id: wins); doc merges peer; peer: delete k; doc merges peer".to_string()];
+        let _ = guard(|| {
+            doc.put(ROOT, "k", ScalarValue::counter(1)).unwrap();
+            doc.increment(ROOT, "k", 2).unwrap();
+            doc.commit();
+            peer.put(ROOT, "x", 0).unwrap();
+            peer.put(ROOT, "y", 0).unwrap();
+            peer.put(ROOT, "k", ScalarValue::Null).unwrap();
+            peer.commit();
+            doc.merge(&mut peer).unwrap();
+        });
+        ac_step(rep, cw, &mut mat, &mut doc, "merge", &log);
+        let _ = guard(|| {
+            peer.delete(ROOT, "k").unwrap();
+            peer.commit();
+            doc.merge(&mut peer).unwrap();
+        });
+        ac_step(rep, cw, &mut mat, &mut doc, "merge", &log);
+        mat.flush(cw, true, &json!({"kind": "chain", "props": ["C09"], "log": log}));
+        rep.count("scripted_scenarios");
+    }
+}
+
 fn mat_steps(_m: &mut Mat, steps: Vec<(&'static str, Vec<Patch>)>, views: Vec<(V, hydrate::Value)>) -> Vec<(&'static str, Vec<Patch>, V, hydrate::Value)> {
     steps.into_iter().zip(views).map(|((w, p), (v, h))| (w, p, v, h)).collect()
 }
@@ -1613,6 +1722,7 @@ pub fn run(rng: &mut Rng, tier: &str, out: &str) -> Report {
     let mut cw = CaseWriter::new(out, "patch", HEADER, if tier == "thorough" { 60 } else { 24 });
     let thorough = tier == "thorough";
     scripted(&mut rep, &mut cw);
+    scripted_autocommit(&mut rep, &mut cw);
     let mut r8 = rng.fork();
     run_c08(&mut r8, thorough, &mut rep, &mut cw);
     let n_chains = if thorough { 1200 } else { 200 };
